@@ -71,6 +71,9 @@ let clause_name = function
   | CScope -> "modifier_called_only_for_requests_read"
 
 let judge _name ins outs =
+  (* a leading D = downstream proxy configured: connect() sends the CONNECT to that
+     proxy instead of dialling the target; the model's Dial / 200 / 502 cover both *)
+  let ins = (match ins with "D" :: r -> r | _ -> ins) in
   match outs with
   | ["INVALID"] | ["BADCASE"] -> VOk false
   | _ ->
